@@ -132,6 +132,8 @@ def skeleton_typestate(ctx):
         check_skeleton(ctx, S, s, key)
         nl += flag
     ctx.check(nl >= 1, "loop-construct.present", "mako/codegen.py (visitControlLine)", "no skeleton with a loop context was produced: the loop push/pop is never emitted", "%d loop-context skeletons" % nl)
+    if ctx.tier == "thorough":
+        _compositions(ctx, S)
     ctx.note("emit_stats", {k: (sorted(v) if isinstance(v, set) else v) for k, v in S.model.stats.items()})
     ctx.note("layout_regexes", S.layout.re_src)
     # the only write inside a finally is <%text filter>: its children cannot raise (Text only)
@@ -270,3 +272,42 @@ def handlers(ctx):
     lt = db.func("runtime._lookup_template")
     rs = [r for r in walk_func(lt) if isinstance(r, ast.Raise) and r.cause is not None]
     ctx.check(bool(rs), "lookup.translate", db.where(lt), "TopLevelLookupException is not translated with `from e`", "raise TemplateLookupException(...) from e")
+
+
+def _compositions(ctx, S):
+    """thorough tier: every def skeleton with each resource-using construct placed inside its body,
+    and those constructs inside one another (depth 2), checked as one program"""
+    starts, ends, pairs = loop_construct_traces(S)
+    loop = [(st.events, en.events) for st, en, flag in pairs if flag][:1]
+    inner_constructs = []
+    for t in S.model.method_traces("visitTextTag"):
+        if any(e[0] == "LINE" and "_push_writer" in e[1].literal() for e in t.events):
+            inner_constructs.append(("texttag", [(t.events, None)]))
+    for t in S.model.method_traces("visitCallTag")[:1]:
+        inner_constructs.append(("calltag", [(t.events, None)]))
+    if loop:
+        st_ev, en_ev = loop[0]
+        inner_constructs.append(("loop", [(st_ev, sk.HEADERS["for"]), ([("CHILDREN", "body")], None), (en_ev, None)]))
+        inner_constructs.append(("loop+texttag", [(st_ev, sk.HEADERS["for"])] + inner_constructs[0][1] + [(en_ev, None)]))
+        inner_constructs.append(("loop+calltag", [(st_ev, sk.HEADERS["for"])] + [x for n_, c_ in inner_constructs if n_ == "calltag" for x in c_] + [(en_ev, None)]))
+    n = 0
+    for c in DEF_CONSTRUCTS:
+        seen = set()
+        for t in S.model.method_traces(c):
+            if t.outcome == "raise":
+                continue
+            sig = tuple(t.brief())
+            if sig in seen:
+                continue
+            seen.add(sig)
+            for iname, inner in inner_constructs:
+                S.layout.inner = inner
+                try:
+                    res = S.layout.run(t.events, star_unroll=1)
+                finally:
+                    S.layout.inner = None
+                tree = sk.emit.parse_skeleton(res)
+                s = sk.Skel(c, t, res, tree, "%s+%s" % (c, iname))
+                n += 1
+                check_skeleton(ctx, S, s, "compose:%s[%s]<%s>#%d" % (c, s.flagtag(), iname, len(seen)), allow_write_in_finally=("texttag" in iname))
+    ctx.note("compositions_checked", n)
